@@ -263,6 +263,81 @@ def index_family_cases(sh):
     return cs
 
 
+INV_FORMS = ("direct", "times_const", "unsqueeze", "expand", "sum_self", "matmul_eye")
+INV_OPS = ("solve", "inv_quad", "inv_quad_logdet", "sqrt_inv_matmul", "linalg_solve")
+
+
+def inverse_form(name, op, D):
+    """(wrapped / composite operator whose _solve is the generic one, its dense value)"""
+    import torch
+    from linear_operator.operators import DenseLinearOperator
+    n = D.shape[-1]
+    if name == "direct":
+        return op, D
+    if name == "times_const":
+        return op * 2.5, D * 2.5
+    if name == "unsqueeze":
+        return op.unsqueeze(0), D.unsqueeze(0)
+    if name == "expand":
+        return op.expand(2, *D.shape), D.expand(2, *D.shape)
+    if name == "sum_self":
+        return op + op, D + D
+    if name == "matmul_eye":
+        eye = torch.eye(n, dtype=D.dtype).expand(*D.shape[:-2], n, n)
+        return op @ DenseLinearOperator(eye.contiguous()), D.clone()
+    raise ValueError(name)
+
+
+def inverse_family_cases(sh, rng):
+    """invalid right-hand-side ROW COUNTS for the inverse-type entry points, on both solver routes (Cholesky: default
+    settings; CG / Lanczos: max_cholesky_size(0)): integer multiples and divisors of N (2N, 3N, N/2 — they survive every
+    `reshape(n_i, -1)` / chunking of a structured `_matmul` closure), N + 1, N - 1 and 1, plus the valid control"""
+    B, n = sh[:-2], sh[-1]
+    rows = [("rows_2N", 2 * n), ("rows_3N", 3 * n), ("rows_Np1", n + 1), ("ok", n)]
+    if n % 2 == 0 and n // 2 > 1:
+        rows.append(("rows_Nhalf", n // 2))
+    if n - 1 > 1:
+        rows.append(("rows_Nm1", n - 1))
+    if n > 1:
+        rows.append(("rows_1", 1))
+    cs = []
+    for kind, r in rows:
+        for route in ("chol", "cg"):
+            for o in INV_OPS:
+                cs.append({"op": "inv_" + o, "kind": kind, "route": route, "rows": r, "cols": 2, "arg": {"rows": r, "cols": 2}})
+    return cs
+
+
+def execute_inverse(L, DL, case, x):
+    """-> (impl verdict, torch verdict); x = right-hand side of shape (batch of L, rows, cols)"""
+    import torch
+    import linear_operator
+    o = case["op"][4:]
+
+    def call():
+        if o == "solve":
+            return L.solve(x)
+        if o == "inv_quad":
+            return L.inv_quad(x)
+        if o == "inv_quad_logdet":
+            return L.inv_quad_logdet(x, logdet=False)[0]
+        if o == "sqrt_inv_matmul":
+            return L.sqrt_inv_matmul(x)
+        return torch.linalg.solve(L, x)
+
+    def run():
+        if case["route"] == "cg":
+            with linear_operator.settings.max_cholesky_size(0):
+                return call()
+        return call()
+
+    def ref():
+        if DL.shape[-1] != DL.shape[-2]:
+            raise RuntimeError("torch: not square")
+        return torch.zeros_like(DL).matmul(x)          # the shape rule of A^{-1} X
+    return c19_pairs.attempt_shape(run), c19_pairs.attempt_shape(ref)
+
+
 def ctor_cases(clsname, sh, rng):
     """constructor calls tied to one class: DenseLinearOperator(non-matrix), MulLinearOperator(shape mismatch),
     InterpolatedLinearOperator(index / value shape mismatch)"""
@@ -544,6 +619,9 @@ def key_of(r):
     k = {"class": r["cls"], "op": case["op"], "shape_class": case["kind"]}
     if "idx_dtype" in case:
         k.update({"index_dtype": case["idx_dtype"], "index_container": case["idx_container"]})
+    if "route" in case:
+        k.update({"route": case["route"], "form": case["form"], "solve_impl": r.get("solve_impl"),
+                  "base_class": r.get("base_cls")})
     if case["op"] in c19_pairs.PAIR_OPS:
         im = r.get("impl_of") or ["", ""]
         k.update({"rhs_class": r.get("rhs_cls"), "impl": im[0], "impl2": im[1], "left": r.get("left", "direct")})
@@ -675,6 +753,23 @@ def run_unit(args):
                          "rhs_cls": rcls[0], "rhs_shape": rcls[2], "impl_of": impl_of(L, case["op"], rcls[1]), "left": left})
     B = sh[:-2]
     sq = sh[-1] == sh[-2]
+    if sq and not small and (not quick or not B):                # quick: the unbatched square left operands
+        for form in INV_FORMS:
+            try:
+                L, DL = inverse_form(form, op, D)
+                if list(L.shape) != list(DL.shape):
+                    continue
+            except Exception:
+                continue
+            irng = random.Random("%d-inv-%s-%s" % (seed, tag, form))
+            dsh = list(DL.shape)
+            for case in inverse_family_cases(dsh, irng):
+                case = dict(case, form=form)
+                x = ob.tt(tspec(irng, dsh[:-2] + [case["rows"], case["cols"]]))
+                impl, ref = execute_inverse(L, DL, case, x)
+                recs.append({"tag": tag, "expr": e, "cls": type(L).__name__, "shape": dsh, "case": case, "impl": impl,
+                             "torch": ref, "left": "direct" if form == "direct" else collapsed_signature(L),
+                             "solve_impl": getattr(getattr(type(L), "_solve", None), "__qualname__", ""), "base_cls": clsname})
     if small:
         cs = [c for c in c19_pairs.pair_cases(sh, seed, ob.ALL, "quick" if quick else "full")
               if c["op"] in ("matmul_op", "torch_matmul")]
@@ -823,10 +918,14 @@ def run(ctx):
         meta, tr_err = None, str(ex)
 
     def search(info):
-        recs = run_grid(ctx, quick=False)
-        before = ctx.violations
-        predicate_failures(ctx, recs)
-        return ctx.violations > before
+        # the quick grid first; the thorough width only when it shows no failing input
+        for q in (True, False):
+            recs = run_grid(ctx, quick=q)
+            before = ctx.violations
+            predicate_failures(ctx, recs)
+            if ctx.violations > before:
+                return True
+        return False
 
     if meta is None:
         ctx.say("translator rejected the source:", tr_err)
@@ -913,7 +1012,7 @@ def run(ctx):
     # coverage
     def cell(r):
         return (r["cls"], r["case"]["op"], r["case"]["kind"], r.get("rhs_cls"), r.get("left"),
-                r["case"].get("idx_dtype"), r["case"].get("idx_container"))
+                r["case"].get("idx_dtype"), r["case"].get("idx_container"), r["case"].get("route"), r["case"].get("form"))
     cells = {}
     for r in recs:
         k = cell(r)
@@ -988,6 +1087,10 @@ def run(ctx):
         "dispatch_targets": sorted("/".join(x for x in t if x) for t in dispatch_targets),
         "left_operand_forms": sorted(x for x in left_forms if x),
         "guard_table_rows": len(rows_meta), "guard_table_classes": len(meta["classes"]),
+        "solve_rows_passing_matmul_guard": sum(1 for r in rows_meta if r["entry"] == "E_solve"
+                                               and r["exits"] and all("G_mm" in x[0] for x in r["exits"])),
+        "matmul_closure_guards": meta.get("helper_guards", []),
+        "inverse_family_evaluations": sum(1 for r in recs if "route" in r["case"]),
         "samples": smp,
     })
     ctx.assumptions = [
@@ -1015,7 +1118,13 @@ def replay(rp):
     if case.get("derive"):
         print("left operand: %s applied to %s" % (case["derive"]["name"], type(op).__name__))
         op, D = c19_pairs.derive(case["derive"]["name"], op, D, case["derive"]["arg"])
-    if case["op"] in c19_pairs.PAIR_OPS:
+    if "route" in case:
+        L, DL = inverse_form(case["form"], op, D)
+        x = ob.tt(rp["rhs"]) if "rhs" in rp else torch.ones(*DL.shape[:-2], case["rows"], case["cols"], dtype=DL.dtype)
+        print("left operand form:", case["form"], "route:", case["route"], "rhs shape:", list(x.shape))
+        impl, ref = execute_inverse(L, DL, case, x)
+        op, D = L, DL
+    elif case["op"] in c19_pairs.PAIR_OPS:
         impl, ref, rcls = c19_pairs.execute_pair(op, D, case, c19_pairs.attempt_shape)
         print("right operand class:", rcls[0], "dispatches to:", impl_of(op, case["op"], rcls[1]))
     else:
